@@ -25,6 +25,10 @@ type iterLoop struct {
 	idxAlias types.Object
 }
 
+// synthFields: selector expressions the analysis made up (the field an accessor
+// returns, written at the accessor's call site) and the field they denote.
+var synthFields = map[*ast.SelectorExpr]*types.Var{}
+
 // IsElem reports whether e denotes the current element of the loop.
 func (l *iterLoop) IsElem(e ast.Expr) bool {
 	e = unparen(e)
@@ -60,6 +64,38 @@ func asIterLoop(info *types.Info, st ast.Stmt) *iterLoop {
 				l.Elem = objOf(info, s.Value)
 			}
 			return l
+		}
+		// for v := range slices.Values(x): a complete forward traversal of x (the value is in key
+		// position); also through a one-line accessor `func (c *T) items() iter.Seq[E] { return slices.Values(c.f) }`
+		if c, ok := unparen(s.X).(*ast.CallExpr); ok {
+			var coll ast.Expr
+			if isFunc(callee(info, c), "slices", "", "Values") && len(c.Args) == 1 {
+				coll = c.Args[0]
+			} else if cal := callee(info, c); cal != nil && theWorld != nil && len(c.Args) == 0 {
+				if t := theWorld.Decls[cal]; t != nil && t.Decl.Body != nil && len(t.Decl.Body.List) == 1 && t.Decl.Recv != nil && len(t.Decl.Recv.List[0].Names) == 1 {
+					if ret, isRet := t.Decl.Body.List[0].(*ast.ReturnStmt); isRet && len(ret.Results) == 1 {
+						tinfo := t.Pkg.TypesInfo
+						if ic, isC := unparen(ret.Results[0]).(*ast.CallExpr); isC && isFunc(callee(tinfo, ic), "slices", "", "Values") && len(ic.Args) == 1 {
+							// c.f in the accessor is <receiver of the call>.f at the call site
+							if sel, isSel := unparen(ic.Args[0]).(*ast.SelectorExpr); isSel && objOf(tinfo, sel.X) == tinfo.Defs[t.Decl.Recv.List[0].Names[0]] {
+								if rcv, _, isM := methodCall(c); isM {
+									coll = &ast.SelectorExpr{X: rcv, Sel: sel.Sel}
+									if fv := plainFieldOf(tinfo, sel); fv != nil {
+										synthFields[coll.(*ast.SelectorExpr)] = fv
+									}
+								}
+							}
+						}
+					}
+				}
+			}
+			if coll != nil {
+				l := &iterLoop{Stmt: s, Body: s.Body, Coll: coll, CollObj: objOf(info, coll), Dir: "fwd", info: info}
+				if s.Key != nil {
+					l.Elem = objOf(info, s.Key)
+				}
+				return l
+			}
 		}
 		// for i := range n (n an integer): an index loop 0..n-1
 		if tv, ok := info.Types[s.X]; ok && tv.Type != nil {
